@@ -187,6 +187,13 @@ local _lua_max_time = 60
 -- Lua sandbox.
 local _lua_current_max_time = nil
 
+-- os.time() value after which the running invocation has exceeded its limit.
+-- The sandboxed pcall/xpcall compare the clock with it themselves: the hook is
+-- a Lua function, and where it cannot be called (code looping at the depth
+-- where any further call fails with "C stack overflow") it never gets to look
+-- at the clock.
+local _lua_deadline = nil
+
 -- Number of nested _lua_invoke calls that are currently active.  Only the
 -- outermost one arms and clears the timeout hook: a nested #invoke (through
 -- frame:preprocess etc.) must neither restart the clock nor remove the hook
@@ -212,6 +219,7 @@ local function _lua_set_timeout(timeout)
         _lua_current_max_time = _lua_max_time
     end
     local start_time = os.time()
+    _lua_deadline = start_time + _lua_current_max_time
     -- The hook runs every 1000 VM instructions.  A call of a library function
     -- is one instruction however long it takes, so a loop over expensive
     -- library calls would be checked very rarely: when 1000 instructions take
@@ -321,6 +329,10 @@ local _orig_xpcall = xpcall
 -- pcall/xpcall for the sandbox: like the originals, but a timeout of the
 -- running invocation is re-raised instead of being reported to the caller.
 local function _reraise_timeout(...)
+    if not _lua_timed_out and _lua_timeout_depth > 0
+        and os.time() > _lua_deadline then
+        _lua_timed_out = true
+    end
     if _lua_timed_out then
         _orig_error("Lua timeout error", 0)
     end
